@@ -54,7 +54,8 @@ def request_released_before_notification(ctx, rule, f, table, cbs):
     pops = [n for n, c in gf.find(lambda q: method_call(q, 'pop') and norm(q.func.value).startswith(table))]
     pops += [n for n in gf.nodes if n.kind == 'stmt' and isinstance(n.ast, ast.Delete) and any(norm(t).startswith(table) for t in n.ast.targets)]
     calls = gf.find(lambda q: isinstance(q, ast.Call) and norm(q.func) in cbs)
-    ctx.need(bool(calls), '%s: completion callbacks not found' % f.qualname)
+    if not calls:
+        return          # notified some other way: the per-path completion rule below has the say
     for n, c in calls:
         ctx.inst(rule, f, 'record-released-before-notification:' + norm(c.func), any(gf.dominates(p_, n) and p_ is not n for p_ in pops),
                  '%s(..) runs while the finished request is still recorded in %s: a follow-up request made from inside the callback is refused' % (norm(c.func), table), line=c.lineno)
@@ -529,6 +530,14 @@ def deck_manager_rules(ctx):
     # one unreadable deck record must not take the whole query down: decoding a record (struct layout AND the name bytes, which
     # need not be valid UTF-8 - erased flash is all 0xFF) fails into "record skipped", whatever the failure is
     dp = ctx.model.cls(DM, 'DeckMemory').method('_parse')
+    # every deck that is kept (kept = is_valid, see _parse_info_section) knows where its memory is: the base address is decoded under
+    # exactly that condition - a kept deck whose base address is still None makes contains() raise in the middle of a write, with the
+    # write lock held
+    gdp = cfg_of(dp)
+    bst = [n for n in gdp.nodes if n.kind == 'stmt' and isinstance(n.ast, ast.Assign) and any(norm(e_) == 'self._base_address' for t_ in n.ast.targets
+                                                                                                 for e_ in (t_.elts if isinstance(t_, (ast.Tuple, ast.List)) else [t_]))]
+    ctx.inst('R10', dp, 'kept-deck-has-base-address', len(bst) == 1 and {k_ for k_ in gdp.fact_keys_at(bst[0])} == {fact_key('self.is_valid', True)},
+             'self._base_address is decoded for every valid deck record (and only under that test); guards: %s' % (sorted(gdp.fact_keys_at(bst[0])) if bst else 'store not found'))
     risky = [c_ for c_ in walk_own(dp.node) if isinstance(c_, ast.Call) and (dotted(c_.func) in ('struct.unpack', 'struct.unpack_from') or
                                                                               (isinstance(c_.func, ast.Attribute) and c_.func.attr == 'decode'))]
     tries = [t_ for t_ in walk_own(dp.node) if isinstance(t_, ast.Try)]
